@@ -209,6 +209,35 @@ def roundtrip_env(mi: int, via_reader: bool) -> bool:
     return roundtrip(ENV_C1, mi, 0.37, via_reader)
 
 
+def roundtrip_after_read(kind: int, via_reader: bool) -> bool:
+    """
+    history: construct (class from XH_C1) ; something reads the object (attr_dict / repr, as process() and save() do) ; an attribute
+    value is mutated in place ; save ; load  =>  the loaded object has the CURRENT content of the saved one
+    pre: 0 <= kind < 6
+    post: _
+    """
+    M = fresh_module()
+    o = getattr(M, NAMES[ENV_C1])()
+    _ = dict(o.attr_dict)
+    _ = repr(o)
+    if not mutate(o, kind, 0.4321):
+        return True
+    fs = MemFS()
+    M.open = fs.open
+    IO.open = fs.open
+    try:
+        o.save("s.json")
+        if via_reader:
+            r = IO.read_settings_object_from_file("s.json")
+        else:
+            r = getattr(M, NAMES[ENV_C1])()
+            r.load("s.json")
+    finally:
+        del M.open
+        del IO.open
+    return type(r).__name__ == type(o).__name__ and snap(r) == snap(o)
+
+
 def roundtrip_reach(c: int, mi: int, v: float, via_reader: bool) -> bool:
     """
     pre: 0 <= c < 8 and 0 <= mi < 9 and v == v and 0 <= v <= 1
